@@ -1,0 +1,15 @@
+//go:build verif
+
+package getoptions
+
+import "io"
+
+// VerifSetExitFn - replaces the function called at the end of the completion path (verification builds only).
+func VerifSetExitFn(fn func(int)) {
+	exitFn = fn
+}
+
+// VerifSetCompletionWriter - replaces the writer the completion list is printed to (verification builds only).
+func VerifSetCompletionWriter(w io.Writer) {
+	completionWriter = w
+}
